@@ -42,6 +42,7 @@ func registerModels(e *Engine) {
 	registerRestfulModels(e)
 	registerFSModels(e)
 	registerRegexpModels(e)
+	registerCoModels(e)
 }
 
 // ---------------------------------------------------------------- harness primitives
